@@ -222,15 +222,6 @@ impl<'tcx> Cx<'tcx> {
         if let mir::Const::Unevaluated(u, _) = c.const_ {
             let _ = write!(o, ",\"named\":{}", esc(&self.path(u.def)));
             self.named.borrow_mut().insert(u.def);
-            // a named `&str` constant: record the literal it evaluates to (file-name tables are compared by value)
-            if let ty::Ref(_, inner, _) = t.kind() {
-                if inner.is_str() && tcx.generics_of(u.def).count() == 0 && u.args.is_empty() {
-                    let env = ty::TypingEnv::post_analysis(tcx, owner.to_def_id());
-                    if let Ok(v) = c.const_.eval(tcx, env, c.span) {
-                        let _ = write!(o, ",\"sv\":{}", esc(&format!("{}", mir::Const::Val(v, t))));
-                    }
-                }
-            }
         }
         o.push('}');
         o
@@ -957,6 +948,20 @@ impl rustc_driver::Callbacks for Cb {
                 continue;
             }
             let t = tcx.type_of(*d).instantiate_identity().skip_norm_wip();
+            // a named `&str` constant: the literal it evaluates to (file-name tables are compared by value). Evaluated here, after every
+            // body has been dumped: const evaluation may run borrowck, which consumes (steals) the mir_built of bodies not dumped yet.
+            if let ty::Ref(_, inner, _) = t.kind() {
+                if inner.is_str() {
+                    if let Ok(v) = tcx.const_eval_poly(*d) {
+                        if !first {
+                            out.push(',');
+                        }
+                        first = false;
+                        let _ = write!(out, "{{\"path\":{},\"sv\":{}}}", esc(&cx.path(*d)), esc(&format!("{}", mir::Const::Val(v, t))));
+                    }
+                }
+                continue;
+            }
             if !matches!(t.kind(), ty::Int(_) | ty::Uint(_) | ty::Bool) {
                 continue;
             }
